@@ -184,13 +184,14 @@ fn c02_scenario(rng: &mut Rng, i: usize) -> Synth {
 			s.filter_delay_us = 0;
 		}
 		4 => {
-			// urgent into a half-filled long window
-			s.throttle_ms = 2000;
-			s.producers = vec![vec![
-				ev(Priority::Normal, Verdict::Pass, 0),
-				ev(Priority::Low, Verdict::Pass, 20_000),
-				ev(Priority::Urgent, *rng.pick(&[Verdict::Reject, Verdict::Error, Verdict::Pass]), 100_000),
-			]];
+			// urgent into a half-filled long window, or urgent as the very first event of its cycle
+			s.throttle_ms = *rng.pick(&[400u64, 2000]);
+			let urgent = ev(Priority::Urgent, *rng.pick(&[Verdict::Reject, Verdict::Error, Verdict::Pass]), 100_000);
+			s.producers = if rng.chance(1, 2) {
+				vec![vec![ev(Priority::Normal, Verdict::Pass, 0), ev(Priority::Low, Verdict::Pass, 20_000), urgent]]
+			} else {
+				vec![vec![urgent, ev(Priority::Normal, Verdict::Pass, 30_000)]]
+			};
 			s.handler = HandlerKind::Sync(0);
 			s.filter_delay_us = 0;
 		}
@@ -304,7 +305,9 @@ fn main() {
 		"C15" => {
 			let mut k = 0usize;
 			while !budget.exhausted() {
-				if k % 3 == 2 {
+				if k % 6 == 5 {
+					watcher::callback_faults(&args, &mut rng, &mut rep);
+				} else if k % 3 == 2 {
 					watcher::run_one("C15", &args, &mut rng, &mut rep, k);
 				} else {
 					let s = c15_scenario(&mut rng, k + args.shard);
@@ -316,7 +319,11 @@ fn main() {
 		"C13" => {
 			let mut k = 0usize;
 			while !budget.exhausted() {
-				watcher::run_one("C13", &args, &mut rng, &mut rep, k);
+				if k % 5 == 4 {
+					watcher::real_variant(&args, &mut rng, &mut rep, k);
+				} else {
+					watcher::run_one("C13", &args, &mut rng, &mut rep, k);
+				}
 				k += 1;
 			}
 		}
